@@ -45,29 +45,60 @@ fn selected_pairs(seq: &[u64], indices: &[u64], m: usize, l: usize) -> Vec<Vec<(
         .collect()
 }
 
+/// structured 64-bit hashes: families whose members agree in the low / high 32 bits, in the xor-fold of the two
+/// halves, in the low 16 bits, or are byte/half swaps of each other — what a narrowed key or a weakened
+/// combiner would confuse.  Items are fed through `NoHashHasher` (hash = item.swap_bytes()).
+fn gen_structured(rng: &mut Sm64, n: usize) -> Vec<u64> {
+    let base: Vec<u64> = (0..3).map(|_| rng.next()).collect();
+    let mut pool: Vec<u64> = Vec::new();
+    for b in &base {
+        let (hi, lo) = (b >> 32, b & 0xffff_ffff);
+        pool.push(*b);
+        pool.push((rng.next() << 32) | lo); // same low 32
+        pool.push((hi << 32) | (rng.next() & 0xffff_ffff)); // same high 32
+        pool.push((lo << 32) | hi); // halves swapped: same fold32
+        let d = rng.next() & 0xffff_ffff;
+        pool.push(((hi ^ d) << 32) | (lo ^ d)); // same fold32
+        pool.push((rng.next() << 16) | (b & 0xffff)); // same low 16
+        pool.push(b.swap_bytes());
+        pool.push(b ^ (1u64 << rng.below(64))); // one bit apart
+        pool.push(b.wrapping_add(1));
+    }
+    pool.sort(); pool.dedup();
+    // items whose NoHashHasher hash is the pool value
+    (0..n).map(|_| rng.pick(&pool).swap_bytes()).collect()
+}
+
 pub fn corr(ctx: &mut Ctx) {
+    cases::<FnvHasher>(ctx, false);
+    cases::<probminhash::nohasher::NoHashHasher>(ctx, true);
+    tail(ctx);
+}
+
+fn cases<H: std::hash::Hasher + Default>(ctx: &mut Ctx, structured: bool) {
     const SEED: u64 = 0x1234_5678_9abc_def0;
-    let ncases = ctx.n(120, 1500);
+    let ncases = if structured { ctx.n(60, 600) } else { ctx.n(120, 1500) };
     for c in 0..ncases {
         let mut rng = ctx.rng.fork();
         let m = [1u32, 2, 3, 8, 16, 33][c as usize % 6];
         let l = [1usize, 1, 2, 3, 5][(c as usize / 6) % 5];
         let n = l + rng.below(40) as usize + if c % 7 == 0 { 200 } else { 0 };
         let alphabet = if c % 3 == 0 { 4 } else { 1000 }; // many repeats / mostly distinct
-        let seq = gen_seq(&mut rng, n, alphabet);
+        let seq = if structured { gen_structured(&mut rng, n) } else { gen_seq(&mut rng, n, alphabet) };
+        ctx.count(if structured { "hashes=structured (NoHashHasher)" } else { "hashes=FNV" });
         ctx.begin_case(&format!("ord m={} l={} n={} alphabet={}", m, l, n, alphabet));
         ctx.count(&format!("m={}", m));
         ctx.count(&format!("l={}", l));
         ctx.mark_nontrivial();
-        let mut p = P::new(m, l);
+        let mut p = ProbOrdMinHash2::<H>::new(m, l);
         p.verif_set_seed(SEED);
         ctx.op(&format!("ord new a {} {} {}", m, l, hx(SEED)));
-        let hashes: Vec<String> = seq.iter().map(|x| hx(hash_with::<FnvHasher, u64>(x))).collect();
+        let hashes: Vec<String> = seq.iter().map(|x| hx(hash_with::<H, u64>(x))).collect();
         // earlier calls on the same instance must not matter
         if c % 2 == 1 {
-            let other = gen_seq(&mut rng, l + 7, 50);
+            let other = if structured { gen_structured(&mut rng, l + 7) } else { gen_seq(&mut rng, l + 7, 50) };
             let _ = catch(std::panic::AssertUnwindSafe(|| p.hash_set(&other)));
-            let oh: Vec<String> = other.iter().map(|x| hx(hash_with::<FnvHasher, u64>(x))).collect();
+            let oh: Vec<String> = other.iter().map(|x| hx(hash_with::<H, u64>(x))).collect();
             ctx.line(&format!("ord set a {}", oh.join(" ")), &{
                 let (ix, vals) = p.verif_store();
                 format!("{} | {}", join(&ix), join_fhx(&vals))
@@ -99,15 +130,15 @@ pub fn corr(ctx: &mut Ctx) {
                     }
                 }
                 // (c) a second instance (same parameters) gives the same signature
-                let mut q = P::new(m, l);
+                let mut q = ProbOrdMinHash2::<H>::new(m, l);
                 let s2 = q.hash_set(&seq);
-                let mut q2 = P::new(m, l);
+                let mut q2 = ProbOrdMinHash2::<H>::new(m, l);
                 q2.verif_set_seed(SEED);
                 let s3 = q2.hash_set(&seq);
                 if &s3 != sig {
                     ctx.oracle_failure(serde_json::json!({"kind":"impl_violates_property","what":"two instances with the same seed differ","m":m,"l":l}));
                 }
-                let mut fresh = P::new(m, l);
+                let mut fresh = ProbOrdMinHash2::<H>::new(m, l);
                 if s2 != q.hash_set(&seq) || fresh.hash_set(&seq) != s2 {
                     ctx.oracle_failure(serde_json::json!({"kind":"impl_violates_property","key":"ord-instance-seed",
                       "what":"two ProbOrdMinHash2 instances constructed with the same parameters give different signatures for the same input","m":m,"l":l,"seq_len":seq.len()}));
@@ -119,6 +150,10 @@ pub fn corr(ctx: &mut Ctx) {
             }
         }
     }
+}
+
+fn tail(ctx: &mut Ctx) {
+    const SEED: u64 = 0x1234_5678_9abc_def0;
     // too short input: reported
     ctx.begin_case("ord data shorter than l");
     let mut p = P::new(4, 3);
